@@ -29,7 +29,8 @@ EXTRAS = ["-", "the root also registers a teardown callback that raises a BaseEx
           "the root also registers an async teardown callback during which the scope around the caller's context is cancelled",
           "the root also starts a service task with teardown_action=None that ends once a later-registered callback tells it to",
           "the root also registers a teardown callback that returns a non-coroutine awaitable",
-          "every component also registers a teardown through ONE shared @context_teardown function (as instances of one component class do)"]
+          "every component also registers a teardown through ONE shared @context_teardown function (as instances of one component class do)",
+          "the root also registers a teardown callback that registers a further callback while the teardown runs"]
 
 
 def _order(a, tier, with_extra=False):
@@ -43,7 +44,7 @@ def _order(a, tier, with_extra=False):
     if n == 5:
         S = 2  # thorough: five components with a shorter arbitrary prefix
     inherit = bool(pick(a["inherit"], 2)) if not with_extra else False
-    extra = 1 + pick(a["extra"], 5) if with_extra else 0
+    extra = 1 + pick(a["extra"], 6) if with_extra else 0
     variants = [pick(a[f"v{i}"], 3) for i in range(n)]
     tape = Tape([a[f"s{i}"] for i in range(S)])
     env = Env()
@@ -57,7 +58,7 @@ def _order(a, tier, with_extra=False):
         if v == 0:
             prep = [pub, ("cp",), ("td", f"prep{i}")]
             # in start(): a context of the component's own must see what was published during this start-up
-            start = [("cp",), ("subctx", "own", RT[i], "default"), ("td", f"start{i}")]
+            start = [("cp",), ("subctx", "own", RT[i], "default"), ("opt", "optsee", RT[i], "default"), ("optnowait", "optsee2", RT[i], "default"), ("td", f"start{i}")]
         elif v == 1:
             start = [pub, ("cp",), ("td", f"start{i}")]
         else:
@@ -66,6 +67,8 @@ def _order(a, tier, with_extra=False):
             (start if start is not None else prep).append([None, ("tdbase", "X", CbBase), ("tdcancel", "X"), ("svcnone", "X"), ("tdaw", "X")][extra])
         if extra == 5:
             (start if start is not None else prep).append(("ctxtd", f"shared{i}"))
+        if extra == 6 and i == 0:
+            (start if start is not None else prep).append(("tdnested", "N"))
         nodes.append(NodeSpec(i, parents[i], prep, start, inherit=inherit))
     classes = build_classes(env, nodes)
     out = {}
@@ -125,6 +128,8 @@ def _order(a, tier, with_extra=False):
     for (i, label), got in env.values.items():
         if label == "own" and got is not values[i]:
             return FAIL("order:context-opened-inside-a-component-does-not-see-the-start-up-publications", f"node {i}: {got!r}", summary)
+        if label in ("optsee", "optsee2") and got is not values[i]:
+            return FAIL(f"order:optional-lookup-inside-a-component-does-not-see-what-was-published-during-this-start-up:{label}", f"node {i}: {got!r}", summary)
         if label == "own:parent" and got is not out["ctx"]:
             return FAIL("order:context-opened-inside-a-component-has-the-wrong-parent", f"node {i}: {got!r}", summary)
     # 3. everything belongs to the caller's context
@@ -133,6 +138,11 @@ def _order(a, tier, with_extra=False):
             return FAIL("order:resource-not-visible-in-callers-context", f"node {i}: {out['visible'][i]}", summary)
     reg = [e[1] for e in log if e[0] == "td_registered"]
     ran = [e[1] for e in log if e[0] == "td"]
+    if extra == 6:
+        # the callback registered during the teardown runs next (stack semantics)
+        if "late-N" not in ran or ran.index("late-N") != ran.index("N") + 1:
+            return FAIL("order:callback-registered-during-teardown-not-run-next", f"ran={ran}", summary)
+        ran = [x for x in ran if x != "late-N"]
     if ran != list(reversed(reg)) or any(log.index(("td", x)) < env.index("leaving") for x in ran):
         return FAIL(f"order:teardown-ownership-or-order:extra={extra}", f"registered={reg} ran={ran}", summary)
     if extra == 3:
@@ -154,7 +164,7 @@ SHAPES_X = shapes(2) + shapes(3)
 def exit_params(tier):
     shp = SHAPES_X if tier == "quick" else SHAPES_Q
     n = 3 if tier == "quick" else 4
-    return [P("shape", 0, len(shp) - 1), P("extra", 0, 4)] + [P(f"v{i}", 0, 2) for i in range(n)] + [P(f"s{i}", 0, 5) for i in range(2 if tier == "quick" else 3)]
+    return [P("shape", 0, len(shp) - 1), P("extra", 0, 5)] + [P(f"v{i}", 0, 2) for i in range(n)] + [P(f"s{i}", 0, 5) for i in range(2 if tier == "quick" else 3)]
 
 
 EXIT = Harness(
